@@ -27,7 +27,7 @@ type edit struct {
 
 func main() {
 	dir := flag.String("dir", "", "scratch tree")
-	mode := flag.String("mode", "locals", "locals|funcs|reorder")
+	mode := flag.String("mode", "locals", "locals|funcs|reorder|swapeq|lencmp")
 	flag.Parse()
 	cfg := &packages.Config{Mode: packages.LoadSyntax, Dir: *dir, Tests: false}
 	pkgs, err := packages.Load(cfg, "./...")
@@ -102,6 +102,69 @@ func main() {
 						off := tf.Offset(id.Pos())
 						edits = append(edits, edit{off, off + len(id.Name), id.Name + suffix})
 					}
+					return true
+				})
+			case "swapeq":
+				// a == b -> b == a (a != b likewise) when neither side is a constant, nil, or contains a call
+				ast.Inspect(f, func(n ast.Node) bool {
+					be, ok := n.(*ast.BinaryExpr)
+					if !ok || (be.Op != token.EQL && be.Op != token.NEQ) {
+						return true
+					}
+					simple := func(e ast.Expr) bool {
+						if tv, ok := p.TypesInfo.Types[e]; ok && (tv.Value != nil || tv.IsNil()) {
+							return false
+						}
+						okE := true
+						ast.Inspect(e, func(m ast.Node) bool {
+							switch m.(type) {
+							case *ast.CallExpr, *ast.FuncLit, *ast.UnaryExpr, *ast.BinaryExpr:
+								okE = false
+							}
+							return okE
+						})
+						return okE
+					}
+					if !simple(be.X) || !simple(be.Y) {
+						return true
+					}
+					xo, xe := tf.Offset(be.X.Pos()), tf.Offset(be.X.End())
+					yo, ye := tf.Offset(be.Y.Pos()), tf.Offset(be.Y.End())
+					edits = append(edits, edit{xo, xe, string(src[yo:ye])}, edit{yo, ye, string(src[xo:xe])})
+					return false
+				})
+			case "lencmp":
+				// len(x) == 0 <-> len(x) < 1 ; len(x) != 0 -> len(x) > 0 ; len(x) > 0 -> len(x) != 0 ; len(x) < 1 -> len(x) == 0
+				ast.Inspect(f, func(n ast.Node) bool {
+					be, ok := n.(*ast.BinaryExpr)
+					if !ok {
+						return true
+					}
+					call, ok := be.X.(*ast.CallExpr)
+					if !ok {
+						return true
+					}
+					if id, ok := call.Fun.(*ast.Ident); !ok || id.Name != "len" {
+						return true
+					}
+					lit, ok := be.Y.(*ast.BasicLit)
+					if !ok {
+						return true
+					}
+					var op, val string
+					switch {
+					case be.Op == token.EQL && lit.Value == "0":
+						op, val = "<", "1"
+					case be.Op == token.NEQ && lit.Value == "0":
+						op, val = ">", "0"
+					case be.Op == token.GTR && lit.Value == "0":
+						op, val = "!=", "0"
+					case be.Op == token.LSS && lit.Value == "1":
+						op, val = "==", "0"
+					default:
+						return true
+					}
+					edits = append(edits, edit{tf.Offset(be.OpPos), tf.Offset(be.OpPos) + len(be.Op.String()), op}, edit{tf.Offset(lit.Pos()), tf.Offset(lit.End()), val})
 					return true
 				})
 			case "reorder":
